@@ -23,3 +23,57 @@ Example C01_decimal_example :
   pytype_to_string (VStr t) c = Ok (VStr [45; 48; 48; 49; 50; 46; 53; 48]%N) /\
   string_to_pytype [45; 48; 48; 49; 50; 46; 53; 48]%N c = Ok (VStr t).
 Proof. vm_compute. repeat split; reflexivity. Qed.
+
+(* ---------------------------------------------------------------------------------------------------------------
+   Decimal elements are INSIDE the domain of the message-level theorems (spec/IsoSpec.v):
+     wf_fieldb c, f_ptype c = PTDec :  f_len c = Some w with 1 <= w, and no processor (f_proc c = PNone);
+     wf_valb c cd (VStr t)          :  dec_parse t = DPlain d, wf_decb d, dec_str d = Some t (t is what Python prints),
+                                       len_okb c (length (dec_fmt w d)) (fixed: exactly w characters; LL / LLL: at
+                                       most 99 / 999) and every character of dec_fmt w d encodable in the codec.
+   So C01_roundtrip (and C02 / C06 / C08 / C09 / C19, all stated over wf_cfgb / wf_msgb) speak about messages with
+   decimal elements as they stand.  The theorem below is C01_roundtrip read at one decimal element: it adds nothing to
+   the proof (it is a corollary), it spells out what the general statement means there — the value of a decimal
+   element of a well-formed message IS the canonical text t of a plain decimal d, the encoder's conversion writes
+   format(d, '0<w>f'), and the decoded message holds the same text t for the element (no masking: expected = id). *)
+Require Import CU.model.Unicode CU.model.Codec CU.spec.IsoSpec CU.proofs.IsoRoundtrip.
+
+Theorem C01_decimal_message : forall cfg cd hexbm m n c v,
+  wf_cfgb cfg = true -> codec_okb cd = true -> wf_msgb cfg cd m = true ->
+  cfg_get cfg n = Some c -> f_ptype c = PTDec -> lookup m (KDE n) = Some v ->
+  exists t w d b dd,
+    v = VStr t /\ f_len c = Some w /\ 1 <= w /\ f_proc c = PNone /\
+    dec_parse t = DPlain d /\ wf_decb d = true /\ dec_str d = Some t /\
+    pytype_to_string v c = Ok (VStr (dec_fmt w d)) /\
+    dumps cfg cd hexbm m = Ok b /\ loads cfg cd hexbm b = Ok dd /\ lookup dd (KDE n) = Some (VStr t).
+Proof. exact c01_decimal_message. Qed.
+Print Assumptions C01_decimal_message.
+
+(* the widened domain is inhabited: a configuration with a fixed decimal element of width 8 (DE5) and an LLVAR decimal
+   element of minimum width 6 (DE6); the message MTI 1144, DE5 = Decimal('-12.50'), DE6 = Decimal('0.007').  Both
+   domain predicates evaluate to true, and under latin_1 the message is written as
+   "1144" + bitmap (bits 1, 5, 6) + "-0012.50" + "06" + "00.007" and read back to the same three entries, with either
+   bitmap rendering *)
+Definition c01dec_cfg : cfgT :=
+  [ (5, mkfc FIXED (Some 8) PTDec [] PNone D43None);
+    (6, mkfc LLVAR (Some 6) PTDec [] PNone D43None) ].
+Definition c01dec_msg : dict :=
+  [ (KMTI, VStr [49; 49; 52; 52]%N);
+    (KDE 5, VStr [45; 49; 50; 46; 53; 48]%N);            (* -12.50 *)
+    (KDE 6, VStr [48; 46; 48; 48; 55]%N) ].               (* 0.007 *)
+
+Example C01_decimal_message_example :
+  match codec_named [108; 97; 116; 105; 110; 95; 49]%N with
+  | Some cd =>
+    wf_cfgb c01dec_cfg = true /\ codec_okb cd = true /\ wf_msgb c01dec_cfg cd c01dec_msg = true /\
+    dumps c01dec_cfg cd false c01dec_msg
+    = Ok (map byte_of_N ([49; 49; 52; 52] ++ [140] ++ repeat 0 15
+                         ++ [45; 48; 48; 49; 50; 46; 53; 48]                      (* -0012.50 *)
+                         ++ [48; 54] ++ [48; 48; 46; 48; 48; 55])%N) /\            (* 06 00.007 *)
+    (forall hexbm, match dumps c01dec_cfg cd hexbm c01dec_msg with
+                   | Ok b => loads c01dec_cfg cd hexbm b = Ok c01dec_msg
+                   | _ => False
+                   end)
+  | None => False
+  end.
+Proof. vm_compute. repeat split. intros [|]; vm_compute; reflexivity. Qed.
+Print Assumptions C01_decimal_message_example.
